@@ -15,7 +15,8 @@ NATIVE = os.path.join(VERIF, 'native')
 def build_thr(variant, san='asan', fn=False, repo=None, io=False):
     extra = ['-finstrument-functions'] if fn else []
     if io:
-        extra += ['-Dwrite=vs_write', '-Dwritev=vs_writev', '-Dclose=vs_close']
+        extra += ['-Dwrite=vs_write', '-Dwritev=vs_writev', '-Dclose=vs_close', '-Dfprintf=vs_fprintf', '-Dprintf=vs_printf', '-Dfputs=vs_fputs', '-Dfputc=vs_fputc', '-Dputs=vs_puts',
+                  '-Dfwrite=vs_fwrite', '-Dfflush=vs_fflush', '-Dumask=vs_umask', '-Dopen=vs_open']
     v = build.build_variant(variant, san=san, sched=True, extra_cflags=extra, repo=repo)
     rec = build.build_shared('librec.so', [os.path.join(NATIVE, 'rec.c')])
     # the scheduler itself: no sanitizer, no instrumentation
@@ -35,7 +36,7 @@ def tsan_env(w):
 
 
 class Execution:
-    __slots__ = ('prefix', 'points', 'rc', 'result', 'log', 'san', 'trace_tail', 'child_traces', 'timed_out')
+    __slots__ = ('prefix', 'points', 'rc', 'result', 'log', 'san', 'trace_tail', 'child_traces', 'timed_out', 'stdout')
 
 
 def run_one(h_thr, w, cfgtext, n, k, mode, prefix, san='asan', fn=False, extra_args=(), timeout=60):
@@ -54,9 +55,11 @@ def run_one(h_thr, w, cfgtext, n, k, mode, prefix, san='asan', fn=False, extra_a
     x = Execution()
     x.prefix = list(prefix)
     x.timed_out = False
+    x.stdout = b''
     try:
         r = sh([h_thr, ini, res, str(n), str(k), mode] + list(extra_args), env=env, cwd=w, timeout=timeout)
         x.rc = r.returncode
+        x.stdout = r.stdout
     except subprocess.TimeoutExpired:
         x.rc = -999
         x.timed_out = True
